@@ -22,6 +22,16 @@ def gen(ctx, label, n):
             yield dict(text=text, na=na, twopl=False, pc=pc, ast=None)
 
 
+def repo_examples(ctx):
+    """the two-agent instances shipped with the repository (Evaluations/hr/instances: 6 residents, 4 hospitals, ties,
+    lower quotas), as the shipped bruteforce / bruteforce_pc result files ran them"""
+    import glob, os
+    files = sorted(glob.glob(os.path.join(C.REPO, 'Evaluations', 'hr', 'instances', '*.txt')))
+    for i, f in enumerate(files if ctx.thorough else files[:2]):
+        for pc in (False, True):
+            yield dict(text=open(f).read(), na=2, twopl=(i % 2 == 0), pc=pc, ast=None)
+
+
 def run_bf(inp):
     argv = ['-na', str(inp['na']), '-bf'] + (['-twopl'] if inp['twopl'] else []) + (['-pc'] if inp['pc'] else [])
     return impl.solver_run(inp['text'], argv)[0]
@@ -38,7 +48,10 @@ class BF(Relation):
                 'different size (approximated: >= 2 students with non-empty lists)')
 
     def cases(self, ctx):
-        return gen(ctx, self.name, 700 if ctx.thorough else 110)
+        for c in gen(ctx, self.name, 700 if ctx.thorough else 110):
+            yield c
+        for c in repo_examples(ctx):
+            yield c
 
     def observe(self, inp):
         return C.observe(run_bf, inp)
